@@ -625,7 +625,7 @@ def main():
                 ftxt += 'Definition fact_%s_%s : string := "%s".\n' % (pname, k, v.replace('"', '""'))
     put('G_facts.v', ftxt)
     put('gen_manifest.json', json.dumps(manifest, indent=1))
-    own = ('G_effects.v', 'G_obj.v', 'effects_manifest.json', 'obj_manifest.json')   # written by gen_eff.py / gen_obj.py
+    own = ('G_effects.v', 'G_obj.v', 'effects_manifest.json', 'obj_manifest.json', 'G_pins.v')   # written by gen_eff.py / gen_obj.py / gen_pins.py
     for f in os.listdir(a.out):
         if (f.startswith('G_') and f.endswith('.v') or f == 'gen_manifest.json') and f not in written and f not in own:
             os.remove(os.path.join(a.out, f))
